@@ -11,3 +11,7 @@ mod util;
 mod c04_nderiv;
 #[cfg(kani)]
 mod c06_cmp;
+#[cfg(kani)]
+mod c06_nonint;
+#[cfg(kani)]
+mod c06_pred;
